@@ -167,6 +167,8 @@ def _legal_opts(draw, kind, family):
         o["long_macros"] = True
     if family in CALL_FAMILIES and _rare(draw, 5):
         o["vform"] = True
+    if not o.get("deathwatched") and not o.get("move") and _rare(draw, 4):
+        o["dependent"] = True
     return o
 
 @st.composite
@@ -385,6 +387,9 @@ def single_fault(row):
         if p.family in CALL_FAMILIES and _rare(draw, 5):
             o = dict(p.opts); o["vform"] = True
             p = make_program(p.kind, p.family, list(p.clauses), **o)
+        if not p.opt("deathwatched") and not p.opt("move") and _rare(draw, 5):
+            o = dict(p.opts); o["dependent"] = True
+            p = make_program(p.kind, p.family, list(p.clauses), **o)
         return p
     return strat()
 
@@ -574,14 +579,17 @@ def legal_family_programs():
                 items = list(ex) + ([] if base == "FORBID_CALL" else term)
                 for long_ in (False, True):
                     for vform in (False, True):
-                        o = {}
-                        if long_:
-                            o["long_macros"] = True
-                        if vform:
-                            o["vform"] = True
-                        pr = make_program(kind, family, items, **o)
-                        if not evaluate(pr):
-                            out.append(pr)
+                        for dep in (False, True):
+                            o = {}
+                            if long_:
+                                o["long_macros"] = True
+                            if vform:
+                                o["vform"] = True
+                            if dep:
+                                o["dependent"] = True
+                            pr = make_program(kind, family, items, **o)
+                            if not evaluate(pr):
+                                out.append(pr)
     for family in DESTRUCTION_FAMILIES:
         for items in ([], [seq_clauses()[0]]):
             for long_ in (False, True):
@@ -709,14 +717,19 @@ def render_body(p, ns):
     if p.opt("movable"):
         lines.append("  static constexpr bool trompeloeil_movable_mock = true;")
     lines.append("  %s(f, %s);" % (M("MAKE_CONST_MOCK%d" if p.opt("const_mock") else "MAKE_MOCK%d") % n, SIGNATURES[p.kind]))
-    lines += ["};", "inline void run()", "{"]
-    if p.opt("deathwatched"):
-        lines += ["  auto* mp = new trompeloeil::deathwatched<M>;", "  auto& mo = *mp;"]
+    dep = bool(p.opt("dependent")) and not p.opt("deathwatched") and not p.opt("move")
+    if dep:
+        # the mock object's type is a template parameter: every clause is a member template call on a dependent type
+        lines += ["};", "template <typename MT_>", "inline void run_t(MT_& mo)", "{"]
     else:
-        lines.append("  M mo;")
-    if p.opt("move"):
-        lines += ["  M moved(std::move(mo));", "  (void)moved;"]
-    lines.append("  M const& co = mo;" if p.opt("const_mock") and not p.opt("deathwatched") else "  auto& co = mo;")
+        lines += ["};", "inline void run()", "{"]
+        if p.opt("deathwatched"):
+            lines += ["  auto* mp = new trompeloeil::deathwatched<M>;", "  auto& mo = *mp;"]
+        else:
+            lines.append("  M mo;")
+        if p.opt("move"):
+            lines += ["  M moved(std::move(mo));", "  (void)moved;"]
+    lines.append(("  MT_ const& co = mo;" if dep else "  M const& co = mo;") if p.opt("const_mock") and not p.opt("deathwatched") else "  auto& co = mo;")
     lines += ["  trompeloeil::sequence s1, s2, s3;", "  int lv = 0;", "  std::size_t rn = 1;",
               "  (void)co; (void)lv; (void)rn; (void)vk::gv; (void)vk::gc;"]
     named = p.family.startswith("NAMED_")
@@ -739,7 +752,10 @@ def render_body(p, ns):
         lines[-1] += ";"
     if named:
         lines.append("  (void)e;")
-    lines += ["}", "}"]
+    lines.append("}")
+    if dep:
+        lines += ["inline void run()", "{", "  M mo_;", "  run_t(mo_);", "}"]
+    lines.append("}")
     return "\n".join(lines) + "\n"
 
 def render_tu(programs):
